@@ -32,6 +32,9 @@ type Cfg struct {
 	TsIncrement     uint64
 	Epoch           time.Time
 	SubscribeProbe  bool
+	// HonourStopTxFlow: the application stops collecting requested transactions when the library says it needs none
+	// (StopTxFlow): what was asked for before is forgotten, only a new RequestTx starts the feed again.
+	HonourStopTxFlow bool
 	// BlockTimeByTip: when set, the block-time callbacks follow the ledger (chain-governed settings): they return the
 	// pair valid on top of the node's current tip, so a pair read after the tip moved (block sync before Reset)
 	// differs from the one the library saved when it entered the height.  Always a consistent pair (max >= min).
